@@ -29,6 +29,7 @@ THEOREMS = [
     "PorepyVerif.C11.region_solver_exact",
     "PorepyVerif.C11.face_flux_exact",
     "PorepyVerif.C11.face_pressure_exact",
+    "PorepyVerif.C11.mpfa2d_linear_exact",
 ]
 LEAN_MODULES = ["PorepyVerif.C11.Props"]
 AUDIT = "PorepyVerif/C11/Audit.lean"
@@ -41,6 +42,7 @@ RULE = ("one case = one grid (2-D: CartGrid 1-4 x 1-4, StructuredTriangleGrid, D
         "|k|<=3, prob 3/4; perturbed hexahedra have non-planar faces), constant SPD K = s(LL^T + I/2) with dyadic L (or isotropic / "
         "diagonal with contrast up to 64), every boundary face Dirichlet with probability q in {.15,.5,.85,1} (at least one), "
         "affine field a.x+b with integer a in [-3,3]^d, plus an arbitrary dyadic cell/boundary field for the correspondence; "
+        "2-D grids with at most 9 (quick) / 18 (thorough) cells are also sent whole to the mpfa2d model (entry-wise matrix comparison); "
         "discretised with the python or (1/10) numba inverter and (1/6) with 2-3 sub-problems; grids with an ill-conditioned "
         "local system (row-normalised cond > 1e5) are rejected; non-trivial = a != 0 and K not a multiple of I; "
         "distinct = distinct canonical cases")
@@ -61,24 +63,38 @@ EXPLANATION = (
     "reconstructed pressure (exact_flux, exact_boundary_pressure, const_zero_flux). The uniqueness hypothesis is discharged "
     "per region by a checked certificate: certOK (L*A = I by explicit multiplication) implies Nonsingular "
     "(certificate_nonsingular), so region_solver_exact holds for every region the driver solves. "
-    "(b) Per-region executable check: the Lean driver evaluates these definitions on the regions of the real grids "
+    "(d) Executable 2-D discretisation mpfa2d: from face_nodes / cell_faces, the geometry arrays, K per cell, boundary types and "
+    "eta the Lean model builds every interaction region itself, solves it with the certified left inverse and assembles the "
+    "four matrices; mpfa2d_linear_exact proves for EVERY well-formed 2-D grid whose regions are all certified that the assembled "
+    "scheme applied to affine data is the exact Darcy flux on every face and the exact pressure on every boundary face. The four "
+    "matrices of the model are compared entry by entry (1e-9 relative) with the real flux / bound_flux / bound_pressure_cell / "
+    "bound_pressure_face on Cartesian, perturbed, structured and Delaunay triangle grids (also tilted in 3-D). "
+    "(b) Per-region executable check for 2-D and 3-D: the Lean driver evaluates the definitions on the regions of the real grids "
     "(consistent, certificate, residual) and returns sub-face fluxes / pressures; summed per face they are compared with "
-    "the real flux / bound_flux / bound_pressure_* matrices applied to the same affine and non-affine data (1e-9). "
+    "the real matrices applied to the same affine and non-affine data (1e-9). "
     "(c) Oracle: the property on the real matrices for every face of every generated grid. "
     "NOT modelled: the vectorised global construction, the numba inverter, 3-D topology bookkeeping, sub-problem gluing; "
-    "binary64 rounding (tolerance 1e-9 relative).")
+    "binary64 rounding (tolerance 1e-9 relative). "
+    "OPEN FINDING (known_findings.d/C11.json, key singular-local-system:triangle-corner-two-dirichlet:eta-1/3): the property "
+    "quantifies over any grid and any Dirichlet/Neumann mix, and neither the docstrings of Mpfa / determine_eta nor the code "
+    "mention that the default eta = 1/3 can make a local system singular; on the recorded triangle grid the real code raises "
+    "nothing and returns flux 2.0 instead of 2.984375. That is wrong output on an input inside the stated domain, so it is "
+    "recorded as a defect (proposed repair fixes/C11-singular-local-system.diff: detect the singular local inverse and raise) "
+    "rather than excluded as a precondition. Other ill-conditioned local systems (cond > 1e5) are never generated and are "
+    "skipped when reached by shrinking, because there binary64 accuracy, not the scheme, decides the outcome.")
 ASSUMPTIONS = [
     "every local (interaction-region) system is nonsingular and well conditioned: cases whose largest row-normalised local "
-    "condition number exceeds 1e5 are rejected by the generator and skipped by oracle and correspondence. This excludes a real "
-    "limitation of the O-method with eta = 1/3: at a corner node of a triangle grid with two Dirichlet faces the local system is "
-    "exactly singular when the inner vertex of the shared edge lies on the line through the two boundary-face midpoints "
-    "(corpus/C11/degenerate-corner-two-dirichlet.json); the real code then returns wrong fluxes silently (no exception)",
+    "condition number exceeds 1e5 are rejected by the generator and skipped by the correspondence; the oracle still evaluates the "
+    "one exactly singular configuration that is recorded as an open finding (triangle-grid corner with two Dirichlet faces, eta = 1/3, "
+    "inner vertex of the shared edge on the line through the two boundary-face midpoints)",
     "tolerance 1e-9 relative to the size of the exact fluxes / pressures (binary64 local solves)",
 ]
 
 TOL = 1e-9
+MATS = ("flux", "bound_flux", "bound_pressure_cell", "bound_pressure_face")
 SIMPLEX = ("tri_struct", "tri_delaunay", "tet_struct", "tet_delaunay")
 MAXCELLS = {"quick": 8, "thorough": 12}
+MAX2D = {"quick": 9, "thorough": 18}   # largest 2-D grid (cells) sent as a whole to the `mpfa2d` model
 
 
 # ----------------------------------------------------------------------------- generator
@@ -285,6 +301,7 @@ def _gen_case(rng, tier):
     rng.shuffle(rest)
     sel = sorted((sel + rest)[:nf])
     case["faces"] = sel
+    case["full2d"] = bool(d == 2 and g.num_cells <= MAX2D[tier])
     _max_cond(case, g)  # fills the cache used by the rejection test in gen_case
     return case
 
@@ -386,8 +403,11 @@ def impl_run(case):
     bc2 = np.array([float(Fraction(v)) for v in case["bc_rnd"]])
     fl2, pr2 = _apply(M, p2, bc2)
     F = case["faces"]
-    return {"aff": {"flux": [float(fl[f]) for f in F], "pres": [float(pr[f]) for f in F]},
-            "rnd": {"flux": [float(fl2[f]) for f in F], "pres": [float(pr2[f]) for f in F]}}
+    out = {"aff": {"flux": [float(fl[f]) for f in F], "pres": [float(pr[f]) for f in F]},
+           "rnd": {"flux": [float(fl2[f]) for f in F], "pres": [float(pr2[f]) for f in F]}}
+    if case.get("full2d"):
+        out["mats"] = {k: [[float(x) for x in row] for row in M[k].toarray()] for k in MATS}
+    return out
 
 
 # ----------------------------------------------------------------------------- oracle (the property on the real matrices)
@@ -397,7 +417,21 @@ def _face_class(f, bfset, isdir):
 
 def oracle(case):
     if _degenerate(case):
-        return None  # a local system is singular / ill-conditioned: outside the domain of the method and of the theorems
+        if not _singular_corner(case):
+            return None  # some other ill-conditioned local system (never generated; reachable only by shrinking / replays)
+        # the recorded open finding: the property says "any grid", the real code answers silently with wrong numbers
+        try:
+            r = _oracle(case)
+        except ValueError:
+            return None  # repaired code refuses the singular local system loudly
+        if r is not None:
+            return {"what": "singular local system at a triangle-grid corner with two Dirichlet faces (eta = 1/3), no exception: " + r["what"],
+                    "key": KEY_CORNER}
+        return None
+    return _oracle(case)
+
+
+def _oracle(case):
     g, K, M = _discretize(case)
     gt = case["gtype"]
     b = float(Fraction(case["b"]))
@@ -498,6 +532,17 @@ def _regions(case):
 
 CONDMAX = 1e5
 _condcache = {}
+_condsig = {}
+KEY_CORNER = "singular-local-system:triangle-corner-two-dirichlet:eta-1/3"
+
+
+def _singular_corner(case):
+    """True iff the worst-conditioned interaction region is the known singular configuration: a corner node of a
+    2-D simplex grid (eta = 1/3) with two cells and two Dirichlet boundary faces (open finding KEY_CORNER)."""
+    if not _degenerate(case) or case["gtype"] not in ("tri_struct", "tri_delaunay"):
+        return False
+    k = json.dumps([case["gtype"], case["n"], case["nodes"], case["simplices"], case["K"], sorted(case["dir"])])
+    return _condsig.get(k) == (2, 2, 0)
 
 
 def _max_cond(case, g=None):
@@ -523,6 +568,7 @@ def _max_cond(case, g=None):
     bfset = set(int(f) for f in g.get_all_boundary_faces())
     dirset = set(case["dir"])
     worst = 0.0
+    worst_sig = None
     for v in range(g.num_nodes):
         cells_v, topo = _node_topology(g, v, fn, nf, cf, bfset)
         if not cells_v:
@@ -561,10 +607,15 @@ def _max_cond(case, g=None):
             worst = float("inf")
             break
         c = float(np.linalg.cond(A / nrm[:, None]))
-        worst = max(worst, c)
+        if c > worst:
+            worst = c
+            nb = [f for f, _, _, isb in topo if isb]
+            worst_sig = (len(cells_v), sum(1 for f in nb if f in dirset), sum(1 for f in nb if f not in dirset))
     if len(_condcache) > 4000:
         _condcache.clear()
+        _condsig.clear()
     _condcache[k] = worst
+    _condsig[k] = worst_sig
     return worst
 
 
@@ -604,7 +655,34 @@ def model_ops(case):
     for v in nodes:
         ops.append(_region_op(case, geo[v], zero_p, zero_bc, True))   # data filled in by the model from (a, b, K)
         ops.append(_region_op(case, geo[v], p2, bc2, False))
+    if case.get("full2d"):
+        ops.append(_mpfa2d_op(case))
     return ops
+
+
+def _mpfa2d_op(case):
+    """the whole (flat) 2-D grid for the Lean `mpfa2d` model: topology, geometry arrays, K per cell, boundary types, eta"""
+    fcase = _flat(case)
+    g = _grid(fcase)
+    fn = g.face_nodes.tocsc()
+    cf = g.cell_faces.tocsr()
+    FX = lambda arr, j: [frac(float(arr[k, j])) for k in range(2)]
+    dirset = set(case["dir"])
+    face_cells = []
+    for f in range(g.num_faces):
+        cs = sorted((int(c), int(s_)) for c, s_ in zip(cf.indices[cf.indptr[f]:cf.indptr[f + 1]], cf.data[cf.indptr[f]:cf.indptr[f + 1]]))
+        face_cells.append([[c, s_] for c, s_ in cs])
+    return {"op": "mpfa2d",
+            "nodes": [FX(g.nodes, v) for v in range(g.num_nodes)],
+            "face_nodes": [[int(v) for v in fn.indices[fn.indptr[f]:fn.indptr[f + 1]]] for f in range(g.num_faces)],
+            "face_cells": face_cells,
+            "cc": [FX(g.cell_centers, c) for c in range(g.num_cells)],
+            "fc": [FX(g.face_centers, f) for f in range(g.num_faces)],
+            "fn": [FX(g.face_normals, f) for f in range(g.num_faces)],
+            "perm": [fcase["K"]] * g.num_cells,
+            "is_dir": [f in dirset for f in range(g.num_faces)],
+            "eta": frac(_eta(case)),
+            "K": fcase["K"], "a": fcase["a"], "b": fcase["b"]}
 
 
 def model_decode(outs, case):
@@ -636,6 +714,27 @@ def model_decode(outs, case):
                     res[which]["flux"][sf["f"]] += Fraction(fl)
                     res[which]["pres"][sf["f"]] += Fraction(pr) / sf["nn"]
     out = {w: {q: [frac(res[w][q][f]) for f in F] for q in ("flux", "pres")} for w in ("aff", "rnd")}
+    if case.get("full2d"):
+        o = outs[2 * len(nodes)]
+        if "err" in o:
+            problems.append(f"mpfa2d: driver answered {o}")
+        elif not o.get("wf"):
+            problems.append("mpfa2d: grid not well-formed")
+        elif not o.get("solved"):
+            problems.append("mpfa2d: some interaction region is singular / not certified")
+        else:
+            if o["aff"]["flux"] != o["exact_flux"]:
+                problems.append("mpfa2d: assembled scheme applied to the affine data is NOT the exact Darcy flux (mpfa2d_linear_exact violated?)")
+            nf_, nc_ = len(o["face_cols"]), len(o["cell_cols"])
+            bnd = [f for f in range(nf_) if o["face_cols"][f] is not None]
+            if any(o["aff"]["pres"][f] != o["exact_pres"][f] for f in bnd):
+                problems.append("mpfa2d: reconstructed boundary pressure of the affine data is not exact")
+            Z = ["0"] * nf_
+            out["mats"] = {
+                "flux": [[o["cell_cols"][c]["flux"][f] for c in range(nc_)] for f in range(nf_)],
+                "bound_pressure_cell": [[o["cell_cols"][c]["pres"][f] for c in range(nc_)] for f in range(nf_)],
+                "bound_flux": [[(o["face_cols"][g_]["flux"][f] if o["face_cols"][g_] else "0") for g_ in range(nf_)] for f in range(nf_)],
+                "bound_pressure_face": [[(o["face_cols"][g_]["pres"][f] if o["face_cols"][g_] else "0") for g_ in range(nf_)] for f in range(nf_)]}
     out["problems"] = problems
     out["regions"] = len(nodes)
     return out
@@ -656,6 +755,20 @@ def compare(impl, model, case):
                 if not abs(x - y) <= TOL * sc:
                     return (f"{w}.{q} on face {f}: real matrices give {x!r}, exact region model gives {y!r} "
                             f"({case['gtype']} {case['n']}, inverter {case.get('inverter')})")
+    if case.get("full2d"):
+        if "mats" not in model or "mats" not in impl:
+            return "mpfa2d matrices missing"
+        for k in MATS:
+            A = np.array(impl["mats"][k])
+            B = np.array([[float(Fraction(x)) for x in row] for row in model["mats"][k]])
+            if A.shape != B.shape:
+                return f"matrix {k}: shape {A.shape} vs model {B.shape}"
+            sc = max(1.0, float(np.abs(B).max()))
+            D = np.abs(A - B)
+            if not D.max() <= TOL * sc:
+                i, j = np.unravel_index(int(np.argmax(D)), D.shape)
+                return (f"matrix {k}[{i},{j}]: real {A[i, j]!r}, mpfa2d model {B[i, j]!r} "
+                        f"({case['gtype']} {case['n']}, inverter {case.get('inverter')}, nsub {case.get('nsub')})")
     return None
 
 
@@ -705,5 +818,6 @@ def stats(cases, impl_outs):
             "constant_field": sum(1 for c in cases if not any(c["a"])),
             "faces_with_regions": sum(len(c["faces"]) for c in cases),
             "cases_without_regions": sum(1 for c in cases if not c["faces"]),
+            "full_2d_matrix_comparisons": sum(1 for c in cases if c.get("full2d")),
             "tilted_2d_grids": sum(1 for c in cases if c.get("tilt")),
             "single_cell_grids": sum(1 for c in cases if c["n"] and all(x == 1 for x in c["n"]))}
